@@ -4055,9 +4055,14 @@ class PartitionTreeBuilder:
                 parts=parts,
                 **partition_opts,
             )
+            groups = separate(leaves, membership)
+            if len(groups) == len(leaves):
+                # nothing was grouped (e.g. there are no connecting edges),
+                # -> avoid looping forever, just contract all remaining
+                break
             leaves = [
                 tree.contract_nodes(group, check=check, optimize=sub_optimize)
-                for group in separate(leaves, membership)
+                for group in groups
             ]
 
         if len(leaves) > 1:
